@@ -416,6 +416,29 @@ fn cancel_case(case: u64, rng: &mut Rng, st: &mut Stats) {
                     }
                 }
             }
+            // ---- a dropped delete_collection that already had an effect (tombstone / database
+            // metadata / object deletes landed) must have retired every retained handle: "either
+            // no partial effect or the handle is poisoned". Judged BEFORE the retry.
+            if api == Api::DbDeleteCollection && landed > 0 {
+                st.count("cancelled_delete_with_partial_effect");
+                if c.state() == CollectionState::Active {
+                    st.violation("C06/cancel/DbDeleteCollection/partial_effect_but_retained_handle_active", ctx(json!({"state": format!("{:?}", c.state())})));
+                    return;
+                }
+                let mark2 = store.mark();
+                let res = hammer(&c, &mut r, target, true).await;
+                for (a, rr) in &res {
+                    if rr.is_ok() {
+                        st.violation(format!("C06/cancel/DbDeleteCollection/retained_handle_accepted_after_interrupted_delete/{a}"), ctx(json!(null)));
+                        return;
+                    }
+                }
+                let wrote = effective_under_prefix(&store, mark2);
+                if !wrote.is_empty() {
+                    st.violation("C06/cancel/DbDeleteCollection/retained_handle_wrote_after_interrupted_delete", ctx(json!(wrote)));
+                    return;
+                }
+            }
             // ---- reopen through the database: a retry / reopen must complete
             if api == Api::DbDeleteCollection {
                 // a cancelled delete is finished by a retry; afterwards nothing remains
@@ -613,6 +636,199 @@ fn queued_case(case: u64, rng: &mut Rng, st: &mut Stats, budget: u64) {
     });
 }
 
+// ---------------------------------------------------------------------------------------------
+// an operation queued behind a mutation whose future is then dropped (poisoning the handle)
+
+#[derive(Clone, Copy, Debug, PartialEq, Eq)]
+enum QOp {
+    Flush,
+    CompactBtree,
+    CompactBm25,
+    Reconcile,
+    Close,
+    Add,
+    SaveExt,
+}
+const QOPS: [QOp; 7] = [QOp::Flush, QOp::CompactBtree, QOp::CompactBm25, QOp::Reconcile, QOp::Close, QOp::Add, QOp::SaveExt];
+
+/// A = update / remove / add in flight, dropped after k polls; B = another call issued while A is
+/// in flight. When the drop poisons the handle and B had not reached the backend yet (it was
+/// queued behind A's gate or lock), B must be rejected and must write nothing.
+fn queued_poison_case(case: u64, rng: &mut Rng, st: &mut Stats) {
+    let qop = QOPS[(case % QOPS.len() as u64) as usize];
+    let first = [Api::Update, Api::Remove, Api::Add][(case / QOPS.len() as u64 % 3) as usize];
+    let read_only_mode = case / (3 * QOPS.len() as u64) % 2 == 1;
+    let wl = rng.fork();
+    block_on(async {
+        let mut k = 1usize;
+        loop {
+            let mut r = wl.clone();
+            let Some((store, d)) = populate(&mut r, st, 10, true).await else { return };
+            let c = d.coll.clone();
+            let target = d.model.docs.keys().next().copied().unwrap_or(1);
+            let new_doc = fresh_doc(&mut r, "qa");
+            let other_doc = fresh_doc(&mut r, "qb");
+            let mut patch = Patch::new();
+            patch.insert("age".into(), Fv::U64(77));
+            patch.insert("uname".into(), Fv::Text(format!("qp-{case}")));
+            patch.insert("body".into(), Fv::Text("harbor jungle".into()));
+            store.set_gate(true);
+            store.set_gate_after(case % 2 == 1);
+            let mark = store.mark();
+            let mut ex: ManualExec<'_, Result<(), String>> = ManualExec::new();
+            let (c2, nd, p2) = (c.clone(), new_doc.clone(), patch.clone());
+            let ta = ex.spawn(async move {
+                let e = |r: Result<(), anda_db::error::DBError>| r.map_err(|e| format!("{e:?}"));
+                match first {
+                    Api::Update => e(c2.update(target, p2).await.map(|_| ())),
+                    Api::Remove => e(c2.remove(target).await.map(|_| ())),
+                    _ => e(c2.add_from(&nd).await.map(|_| ())),
+                }
+            });
+            let mut a_done = false;
+            for _ in 0..k {
+                if ex.poll(ta) {
+                    a_done = true;
+                    break;
+                }
+            }
+            if a_done {
+                store.set_gate(false);
+                store.set_gate_after(false);
+                break;
+            }
+            // B is issued now and polled a few times: it either waits for A (no backend event) or
+            // runs concurrently with it (then it is not "queued" and is not judged)
+            let events_before_b = store.log_len();
+            let (c3, od) = (c.clone(), other_doc.clone());
+            let tb = ex.spawn(async move {
+                let e = |r: Result<(), anda_db::error::DBError>| r.map_err(|e| format!("{e:?}"));
+                match qop {
+                    QOp::Flush => e(c3.flush(anda_db::unix_ms()).await.map(|_| ())),
+                    QOp::CompactBtree => e(c3.compact_btree_index(&["tags"]).await),
+                    QOp::CompactBm25 => e(c3.compact_bm25_index(&["body"]).await),
+                    QOp::Reconcile => e(c3.reconcile_storage().await.map(|_| ())),
+                    QOp::Close => e(c3.close().await),
+                    QOp::Add => e(c3.add_from(&od).await.map(|_| ())),
+                    QOp::SaveExt => e(c3.save_extension("kq".into(), Fv::U64(5)).await),
+                }
+            });
+            let mut b_done = false;
+            for _ in 0..3 {
+                if ex.poll(tb) {
+                    b_done = true;
+                    break;
+                }
+            }
+            let b_reached_backend = store.log_len() != events_before_b;
+            let landed_a = store.mutations_since(mark, None).iter().filter(|m| m.effective()).count();
+            if read_only_mode {
+                // the transition is "the handle becomes read-only" (collection flag or database flag)
+                // while A is in flight and B waits: A, admitted before, may finish; B, which gets its
+                // turn afterwards, must be refused and must write nothing
+                if case % 2 == 0 { c.set_read_only(true) } else { d.db.set_read_only(true) }
+                store.set_gate(false);
+                store.set_gate_after(false);
+                let mut a_fin = false;
+                for _ in 0..4000 {
+                    if ex.poll(ta) {
+                        a_fin = true;
+                        break;
+                    }
+                }
+                let mark_b = store.mark();
+                if !b_done {
+                    for _ in 0..4000 {
+                        if ex.poll(tb) {
+                            b_done = true;
+                            break;
+                        }
+                    }
+                }
+                let rb = ex.take_result(tb);
+                drop(ex);
+                st.eval();
+                st.count("queued_readonly_points");
+                let ctx = |extra: Value| json!({"in_flight": format!("{first:?}"), "read_only_set_after_polls": k, "queued": format!("{qop:?}"),
+                    "queued_call_had_reached_backend": b_reached_backend, "history": d.history, "extra": extra});
+                if !a_fin || !b_done {
+                    st.violation(format!("C06/queued_readonly/{qop:?}/call_never_returns"), ctx(json!({"a": a_fin, "b": b_done})));
+                    return;
+                }
+                if !b_reached_backend && qop != QOp::Close {
+                    st.count("queued_behind_readonly_judged");
+                    if let Some(Ok(())) = rb {
+                        st.violation(format!("C06/queued_readonly/{qop:?}/queued_call_accepted_on_read_only_handle"), ctx(json!(null)));
+                        return;
+                    }
+                    let wrote = effective_under_prefix(&store, mark_b);
+                    if !wrote.is_empty() {
+                        st.violation(format!("C06/queued_readonly/{qop:?}/queued_call_wrote_on_read_only_handle"), ctx(json!(wrote)));
+                        return;
+                    }
+                }
+                k += 1;
+                if k > 200 {
+                    break;
+                }
+                continue;
+            }
+            // drop A at its current suspension point
+            ex.cancel(ta);
+            let state_after_drop = c.state();
+            let mark_b = store.mark();
+            store.set_gate(false);
+            store.set_gate_after(false);
+            if !b_done {
+                for _ in 0..4000 {
+                    if ex.poll(tb) {
+                        b_done = true;
+                        break;
+                    }
+                }
+            }
+            let rb = ex.take_result(tb);
+            drop(ex);
+            st.eval();
+            st.count("queued_poison_points");
+            st.count(&format!("queued_poison:{qop:?}"));
+            let ctx = |extra: Value| json!({"in_flight": format!("{first:?}"), "dropped_after_polls": k, "backend_mutations_of_dropped_call": landed_a,
+                "queued": format!("{qop:?}"), "queued_call_had_reached_backend": b_reached_backend, "state_after_drop": format!("{state_after_drop:?}"),
+                "history": d.history, "extra": extra});
+            if !b_done {
+                st.violation(format!("C06/queued_poison/{qop:?}/queued_call_never_returns"), ctx(json!(null)));
+                return;
+            }
+            if state_after_drop == CollectionState::Poisoned && !b_reached_backend {
+                st.count("queued_behind_poisoning_drop_judged");
+                st.count(&format!("queued_behind_poisoning_drop:{qop:?}"));
+                if let Some(Ok(())) = rb {
+                    st.violation(format!("C06/queued_poison/{qop:?}/queued_call_accepted_on_poisoned_handle"), ctx(json!(null)));
+                    return;
+                }
+                let wrote = effective_under_prefix(&store, mark_b);
+                if !wrote.is_empty() {
+                    st.violation(format!("C06/queued_poison/{qop:?}/queued_call_wrote_on_poisoned_handle"), ctx(json!(wrote)));
+                    return;
+                }
+                if c.state() == CollectionState::Active {
+                    st.violation(format!("C06/queued_poison/{qop:?}/poisoned_handle_active_again"), ctx(json!(null)));
+                    return;
+                }
+            } else if state_after_drop == CollectionState::Poisoned {
+                st.count("queued_poison_b_ran_concurrently(not judged)");
+            } else {
+                st.count("queued_poison_drop_did_not_poison");
+            }
+            st.distinct(vcore::fnv_str(&format!("qp{first:?}{qop:?}{k}")) ^ case);
+            k += 1;
+            if k > 200 {
+                break;
+            }
+        }
+    });
+}
+
 fn main() {
     let mut run = Run::from_args(
         "C06",
@@ -635,9 +851,18 @@ fn main() {
     if run.wants("queued") {
         run.parallel("queued", t.pick(24, 600), 0.9, |c, rng, st| queued_case(c, rng, st, t.pick(60, 600)));
     }
+    if run.wants("queued_poison") {
+        run.parallel("queued_poison", t.pick(84, 1260), 0.95, queued_poison_case);
+    }
     for tr in TRANSITIONS {
         run.floor(&format!("silence:{tr:?}"), 10);
     }
+    run.floor("queued_behind_poisoning_drop_judged", 50);
+    run.floor("queued_behind_readonly_judged", 30);
+    for q in [QOp::Flush, QOp::CompactBtree, QOp::Close] {
+        run.floor(&format!("queued_behind_poisoning_drop:{q:?}"), 2);
+    }
+    run.floor("cancelled_delete_with_partial_effect", 2);
     for a in APIS {
         run.floor(&format!("cancelled:{a:?}"), 2);
     }
